@@ -562,7 +562,7 @@ func c20() []string {
 	}
 	projects := [][]tk{
 		{{"build", "Build the bindings for C#", nil, []string{"echo out-build", "echo err-build 1>&2"}}},
-		{{"zeta", "", []string{"\"dep.txt\""}, []string{"echo z"}}, {"alpha", "First", []string{"zeta"}, []string{"echo a1", "echo a2"}}},
+		{{"zeta", "", []string{"\"dep.txt\""}, []string{"echo z"}}, {"alpha", "Check coverage is 100% of lines", []string{"zeta"}, []string{"echo a1", "echo a2"}}},
 		{{"default", "The default", nil, []string{"echo dflt"}}, {"other", "Other", nil, nil}},
 		{{"b", "bee", nil, []string{"echo b"}}, {"a", "ay", []string{"b"}, []string{"echo a"}}, {"c", "", []string{"a", "b"}, []string{"echo c; echo c2"}}},
 	}
@@ -594,7 +594,7 @@ func c20() []string {
 			}
 		}
 		last := proj[len(proj)-1].name
-		for _, mode := range []string{"json", "json-second-run", "quiet", "show", "vars", "noargs"} {
+		for _, mode := range []string{"json", "json-second-run", "json-noargs", "quiet", "show", "vars", "noargs"} {
 			total++
 			base, _ := os.MkdirTemp("", "fsprobe-")
 			base, _ = filepath.EvalSymlinks(base)
@@ -696,6 +696,15 @@ func c20() []string {
 							fails = append(fails, fmt.Sprintf("%s: task %s command %d reported as %+v", desc, n, k, r))
 						}
 					}
+				}
+			case "json-noargs":
+				if !hasDefault {
+					break
+				}
+				out, err := run(func(o *app.Options) { o.JSON = true }, nil)
+				var any []map[string]interface{}
+				if err != nil || json.Unmarshal([]byte(strings.TrimSpace(out)), &any) != nil || strings.Count(strings.TrimSpace(out), "\n") != 0 {
+					fails = append(fails, fmt.Sprintf("%s: --json without task names (default task): stdout is not a single JSON document: %q (err=%v)", desc, out, err))
 				}
 			case "quiet":
 				out, _ := run(func(o *app.Options) { o.Quiet = true }, []string{last})
